@@ -9,6 +9,7 @@
     unbalanced   -> `-` | space separated `<how>:<lock>@<func>` for lock-balance entries that are leaked / unheld
     reentrant    -> `-` | space separated `reentrant-lock:<lock>@<caller>-><callee>`: calls made while holding <lock> to a
                     function that (transitively) acquires it again
+    nestings     -> `-` | space separated `nested[-same-pool]:<outer keyed lock>-><inner keyed lock>@<func>` (+ `keyed-lock-order-cycle`)
     cachewrites  -> `-` | space separated `cache-object-mutated:<lister|event>@<func>`: writes through objects obtained from a
                     lister / informer cache
     funcs        -> space separated `<func>@<file:line>` of every function that has a table entry or a call site
@@ -110,9 +111,17 @@ def handle (line : String) : String :=
       s!"{how}:{lockNames.getD b.lock "?"}@{funcNames.getD b.fn "?"}"
     if strs.isEmpty then "-" else Galaxy.Drv.joinWith " " (sortStrs strs.eraseDups)
   | ["reentrant"] =>
-    let v := (reentrantSites table acqTrans selfReacquire).map fun (l, caller, callee) =>
+    let v := (reentrantSites table acqTrans acqEvents keyedLockPools).map fun (l, caller, callee) =>
       s!"reentrant-lock:{lockNames.getD l "?"}@{funcNames.getD caller "?"}->{funcNames.getD callee "?"}"
     if v.isEmpty then "-" else Galaxy.Drv.joinWith " " (sortStrs v.eraseDups)
+  | ["nestings"] =>
+    let ns := keyedNestings table acqTrans acqEvents keyedLockPools
+    let v := ns.map fun (f, a, b) =>
+      let same := poolOf keyedLockPools a == poolOf keyedLockPools b
+      s!"{if same then "nested-same-pool" else "nested"}:{lockNames.getD a "?"}->{lockNames.getD b "?"}@{funcNames.getD f "?"}"
+    let cyc := if acyclic (poolOrder keyedLockPools ns) then [] else ["keyed-lock-order-cycle"]
+    let all := sortStrs (v ++ cyc).eraseDups
+    if all.isEmpty then "-" else Galaxy.Drv.joinWith " " all
   | ["cachewrites"] =>
     let v := (cacheUses.filter fun u => u.kind == .written).map fun u =>
       s!"cache-object-mutated:{u.what}@{funcNames.getD u.fn "?"}"
